@@ -8,6 +8,7 @@ import (
 	"math/big"
 	"os"
 	"path/filepath"
+	"sort"
 
 	"github.com/xuperchain/xupercore/bcs/ledger/xledger/state/utxo/txhash"
 	"github.com/xuperchain/xupercore/bcs/ledger/xledger/state/xmodel"
@@ -23,8 +24,10 @@ import (
 // contracts, acl manager) driven like a single-miner node.
 //
 //	keys      k1 k2 k3 (parties of the transactions under test), kx (an outsider: never signs honestly, owns funds)
-//	accounts  A  rule "k2 and k3" (threshold 1.0, weights 0.5 / 0.5), created by $acl.NewAccount in a confirmed block
-//	          B  rule "k2 and kx" (never satisfied by k2, k3)
+//	accounts  created by $acl.NewAccount in a confirmed block (weights / thresholds are the specification's, halved):
+//	          A  threshold 2: k2 1, k3 1        B  threshold 2: k2 1, kx 1 (never met by k1 k2 k3)
+//	          T  threshold 2: k1 1, k2 1, k3 1  L  threshold 3: k2 1, k3 1 (never met)
+//	          S  threshold 2: k2 2, k3 1        K  key sets {k1, k2} or {k3}
 //	          G  a well-formed account name that is never created (no rule on the chain)
 //	contract  C  = $c07pay, a kernel contract registered by this driver that pays out of its own funds
 //	funds     one confirmed transaction gives every owner above several outputs
@@ -230,7 +233,107 @@ func (w *world) uri(path []string) string {
 	return s
 }
 
-var owners = []string{"k1", "k2", "k3", "kx", "A", "B", "G", "C"}
+var owners = []string{"k1", "k2", "k3", "kx", "A", "B", "G", "T", "L", "S", "K", "C"} // the contract last
+
+var keyNames = []string{"k1", "k2", "k3", "kx"}
+
+// the rules of the fixture accounts in the specification's units (spec/TxAuth.tla: Weight, Accept, KeySets)
+type ruleDef struct {
+	acct string
+	w    map[string]int
+	acc  int
+	sets [][]string
+}
+
+var ruleDefs = []ruleDef{
+	{acct: "A", w: map[string]int{"k2": 1, "k3": 1}, acc: 2},
+	{acct: "B", w: map[string]int{"k2": 1, "kx": 1}, acc: 2},
+	{acct: "T", w: map[string]int{"k1": 1, "k2": 1, "k3": 1}, acc: 2},
+	{acct: "L", w: map[string]int{"k2": 1, "k3": 1}, acc: 3},
+	{acct: "S", w: map[string]int{"k2": 2, "k3": 1}, acc: 2},
+	{acct: "K", sets: [][]string{{"k1", "k2"}, {"k3"}}},
+}
+
+func (w *world) aclOf(r ruleDef) []byte {
+	if r.sets != nil {
+		a := &protos.Acl{Pm: &protos.PermissionModel{Rule: protos.PermissionRule_SIGN_AKSET}, AkSets: &protos.AkSets{Sets: map[string]*protos.AkSet{}}}
+		for i, set := range r.sets {
+			ks := &protos.AkSet{}
+			for _, k := range set {
+				ks.Aks = append(ks.Aks, w.key[k].Address)
+			}
+			a.AkSets.Sets[fmt.Sprint(i+1)] = ks
+		}
+		a.AkSets.Expression = "1 or 2"
+		b, err := json.Marshal(a)
+		if err != nil {
+			panic(err)
+		}
+		return b
+	}
+	m := map[string]float64{}
+	for k, v := range r.w {
+		m[w.key[k].Address] = float64(v) / 2
+	}
+	return thresholdACL(m, float64(r.acc)/2)
+}
+
+// ruleLine is one entry of the "fixture" trace line: the rule of an account as READ BACK from the chain.
+type ruleLine struct {
+	A    string     `json:"a"`
+	Kind string     `json:"kind"`
+	Acc  int        `json:"acc"`
+	W    []int      `json:"w"` // weights of k1 k2 k3 kx (doubled: the specification's units)
+	Sets [][]string `json:"sets"`
+}
+
+func (w *world) fixtureRules() ([]ruleLine, error) {
+	nameOf := map[string]string{}
+	for _, k := range keyNames {
+		nameOf[w.key[k].Address] = k
+	}
+	out := []ruleLine{}
+	for _, r := range ruleDefs {
+		acl, err := w.node.Acl.GetAccountACL(w.acct[r.acct])
+		if err != nil || acl == nil || acl.Pm == nil {
+			return nil, fmt.Errorf("fixture: rule of account %s not readable after its block: %v", r.acct, err)
+		}
+		line := ruleLine{A: r.acct, W: make([]int, len(keyNames)), Sets: [][]string{}}
+		switch acl.Pm.Rule {
+		case protos.PermissionRule_SIGN_THRESHOLD:
+			line.Kind, line.Acc = "thr", int(acl.Pm.AcceptValue*2)
+			for addr, wt := range acl.AksWeight {
+				k, ok := nameOf[addr]
+				if !ok {
+					return nil, fmt.Errorf("fixture: account %s names a foreign key", r.acct)
+				}
+				for i, n := range keyNames {
+					if n == k {
+						line.W[i] = int(wt * 2)
+					}
+				}
+			}
+		case protos.PermissionRule_SIGN_AKSET:
+			line.Kind = "sets"
+			ids := []string{}
+			for id := range acl.GetAkSets().GetSets() {
+				ids = append(ids, id)
+			}
+			sort.Strings(ids)
+			for _, id := range ids {
+				set := []string{}
+				for _, addr := range acl.AkSets.Sets[id].Aks {
+					set = append(set, nameOf[addr])
+				}
+				line.Sets = append(line.Sets, set)
+			}
+		default:
+			return nil, fmt.Errorf("fixture: account %s has rule kind %v", r.acct, acl.Pm.Rule)
+		}
+		out = append(out, line)
+	}
+	return out, nil
+}
 
 func newWorld(name string) (*world, error) {
 	node, err := newNode(name)
@@ -242,18 +345,17 @@ func newWorld(name string) (*world, error) {
 	for _, k := range []string{"k1", "k2", "k3", "kx"} {
 		w.key[k] = fx.GetKey(fmt.Sprintf("c07/%d/%s", sd, k))
 	}
-	for i, a := range []string{"A", "B", "G"} {
+	for i, a := range []string{"A", "B", "G", "T", "L", "S", "K"} {
 		w.acct[a] = fmt.Sprintf("XC%d%d%014d@%s", i+1, int(sd%9)+1, sd%100000, fx.BCName)
 	}
 	bank, admin := fx.GetKey("c07/bank"), fx.GetKey("c07/admin")
 	// accounts A and B on the confirmed chain
 	raw := func(full string) string { return full[2:18] }
-	pe, err := preExec(node, admin.Address, []string{admin.Address}, []call{
-		{"$acl", "NewAccount", map[string][]byte{"account_name": []byte(raw(w.acct["A"])),
-			"acl": thresholdACL(map[string]float64{w.key["k2"].Address: 0.5, w.key["k3"].Address: 0.5}, 1.0)}},
-		{"$acl", "NewAccount", map[string][]byte{"account_name": []byte(raw(w.acct["B"])),
-			"acl": thresholdACL(map[string]float64{w.key["k2"].Address: 0.5, w.key["kx"].Address: 0.5}, 1.0)}},
-	})
+	calls := []call{}
+	for _, r := range ruleDefs {
+		calls = append(calls, call{"$acl", "NewAccount", map[string][]byte{"account_name": []byte(raw(w.acct[r.acct])), "acl": w.aclOf(r)}})
+	}
+	pe, err := preExec(node, admin.Address, []string{admin.Address}, calls)
 	if err != nil {
 		return nil, fmt.Errorf("pre-execution of $acl.NewAccount: %v", err)
 	}
@@ -306,7 +408,7 @@ func newWorld(name string) (*world, error) {
 	// a second funding transaction, confirmed and then marked by the regulator's ledger call
 	mtx := &pb.Transaction{Version: 3, Nonce: "c07-mfund", Timestamp: 3, Desc: []byte("mfund")}
 	mtx.TxInputs = []*protos.TxInput{{RefTxid: ftx.Txid, RefOffset: off, FromAddr: []byte(bank.Address), Amount: big.NewInt(total).Bytes()}}
-	for _, o := range owners[:7] { // not the contract: its pre-executed payment must not refer to the marked transaction
+	for _, o := range owners[:len(owners)-1] { // not the contract: its pre-executed payment must not refer to the marked transaction
 		for i := 0; i < outsPer; i++ {
 			mtx.TxOutputs = append(mtx.TxOutputs, &protos.TxOutput{ToAddr: []byte(w.name(o)), Amount: big.NewInt(outAmount).Bytes()})
 			total -= outAmount
@@ -330,16 +432,14 @@ func newWorld(name string) (*world, error) {
 	}
 	w.mfund = mtx
 	off = 0
-	for _, o := range owners[:7] {
+	for _, o := range owners[:len(owners)-1] {
 		for i := 0; i < outsPer; i++ {
 			w.mouts[o] = append(w.mouts[o], utxoRef{mtx.Txid, off, big.NewInt(outAmount).Bytes()})
 			off++
 		}
 	}
-	for _, a := range []string{"A", "B"} {
-		if acl, err := node.Acl.GetAccountACL(w.acct[a]); err != nil || acl == nil {
-			return nil, fmt.Errorf("fixture: rule of account %s not readable after its block: %v", a, err)
-		}
+	if _, err := w.fixtureRules(); err != nil {
+		return nil, err
 	}
 	if acl, _ := node.Acl.GetAccountACL(w.acct["G"]); acl != nil {
 		return nil, fmt.Errorf("fixture: ghost account has a rule")
